@@ -63,12 +63,12 @@ unsigned MessageBase::extract_header(const f8String& from, char *len, char *mtyp
 		if (*tag != '8')
 			return 0;
 		s_offset += result;
-		if ((result = extract_element(dptr + s_offset, flen - s_offset, tag, len)))
+		if ((result = extract_element(dptr + s_offset, flen - s_offset, tag, len, MAX_MSGTYPE_FIELD_LEN, MAX_MSGTYPE_FIELD_LEN)))
 		{
 			if (*tag != '9')
 				return 0;
 			s_offset += result;
-			if ((result = extract_element(dptr + s_offset, flen - s_offset, tag, mtype)))
+			if ((result = extract_element(dptr + s_offset, flen - s_offset, tag, mtype, MAX_MSGTYPE_FIELD_LEN, MAX_MSGTYPE_FIELD_LEN)))
 			{
 				if (*tag != '3' || *(tag + 1) != '5')
 					return 0;
